@@ -22,9 +22,9 @@ import (
 	core "github.com/iden3/go-iden3-core/v2"
 	"github.com/iden3/go-iden3-core/v2/w3c"
 	"github.com/iden3/go-schema-processor/v2/merklize"
+	"github.com/iden3/go-schema-processor/v2/utils"
 	"github.com/iden3/go-schema-processor/v2/verifiable"
 	"github.com/piprate/json-gold/ld"
-	"github.com/iden3/go-schema-processor/v2/utils"
 
 	"vharness/coqgen"
 	"vharness/ctxload"
